@@ -216,6 +216,11 @@ func dischargeAll(obs []*Oblig, dir string, timeoutS int, workers int) {
 		if err := os.WriteFile(ob.SMT, []byte(header+text), 0o644); err != nil {
 			fatalf("write vc: %v", err)
 		}
+		if ob.AltGoal != nil && ob.Expect == "unsat" {
+			// the same proof obligation in its unsplit form: tried when the split part is not decided
+			ob.altSMT = filepath.Join(dir, fmt.Sprintf("vc%04da.smt2", i))
+			os.WriteFile(ob.altSMT, []byte(header+"; unsplit form\n"+RenderVC(ob.AltHyps, ob.AltGoal, false)), 0o644)
+		}
 	}
 	var wg sync.WaitGroup
 	sem := make(chan struct{}, workers)
@@ -254,6 +259,18 @@ func dischargeAll(obs []*Oblig, dir string, timeoutS int, workers int) {
 					r2.out = r.out
 				}
 				r = r2
+			}
+			if r.status != "unsat" && ob.Expect == "unsat" && ob.altSMT != "" {
+				if ra := solveRace(ob.altSMT, to, nil); ra.status == "unsat" {
+					ra.secs += r.secs
+					ra.backend += "(unsplit)"
+					for k, v := range r.all {
+						if _, ok := ra.all[k]; !ok {
+							ra.all[k] = v
+						}
+					}
+					r = ra
+				}
 			}
 			ob.Result = r.status
 			ob.Backend = r.backend
